@@ -243,6 +243,92 @@ def check_cardinality(ctx, c):
                       instance=f"{name}: table over 0/1/2/3 values = {rows}")
 
 
+def check_decoder_tables(ctx, c):
+    """R19.7: the single-valued / optional parameter decoders as decision tables.  Each `decode` of a DecodeParam / DecodeHeader
+    impl that selects its item with only_item / optional_item is evaluated by constant propagation for every combination of
+      item selection  (Err | Ok(None) | Ok(item))  x  header text conversion (Err | Ok)  x  parser (Err | Ok(v))  x  emptiness of
+      the text (a predicate a decoder has no business consulting);
+    the verdict must be: selection / conversion / parser errors are returned as errors, an absent optional is Ok(None), and a
+    present item that parses is delivered as that value — whatever the text looks like (an empty text is a present value)."""
+    from .. import minterp
+    F = ctx.F
+    OPTP, RES = "core::option::Option", "core::result::Result"
+    n = 0
+    for b in c.bodies:
+        if not (b.name == "decode" and b.trait and b.trait.split("::")[-1] in ("DecodeParam", "DecodeHeader") and b.id.startswith("conjure_http::server::")):
+            continue
+        sel = [t["call"]["name"] for x in [b] + c.closures_of(b) for _, t in x.calls() if t["call"]["name"] in ("only_item", "optional_item")]
+        if len(set(sel)) != 1:
+            continue
+        optional = sel[0] == "optional_item"
+        who = f"{b.trait.split('::')[-1]} for {(ty_adt(b.self_ty) or '?').split('::')[-1]}"
+        bad, unsup, rows = [], None, 0
+        sel_cases = ["err", "item"] + (["none"] if optional else [])
+        for sc in sel_cases:
+            for conv in (("ok", "err") if sc == "item" else ("ok",)):
+                for pr in (("ok", "err") if sc == "item" and conv == "ok" else ("ok",)):
+                    for empty in ((False, True) if sc == "item" else (False,)):
+                        used = {"parse": False, "conv": False}
+
+                        def oracle(f, argv, sc=sc, conv=conv, pr=pr, empty=empty):
+                            nm, d_ = f.get("name"), f.get("def", "")
+                            if nm in ("only_item", "optional_item"):
+                                if sc == "err":
+                                    return minterp.adt(RES, 1, [("sym", "selection-error")])
+                                if sc == "none":
+                                    return minterp.adt(RES, 0, [minterp.adt(OPTP, 0, [])])
+                                return minterp.adt(RES, 0, [minterp.adt(OPTP, 1, [("sym", "item")]) if nm == "optional_item" else ("sym", "item")])
+                            if nm == "to_str" and "HeaderValue" in d_:
+                                used["conv"] = True
+                                return minterp.adt(RES, 0, [("sym", "item")]) if conv == "ok" else minterp.adt(RES, 1, [("sym", "not-text")])
+                            if nm in ("from_plain", "parse", "from_str") and ("FromPlain" in d_ or "core::str" in d_ or "FromStr" in d_):
+                                used["parse"] = True
+                                return minterp.adt(RES, 0, [("sym", "value")]) if pr == "ok" else minterp.adt(RES, 1, [("sym", "parse-error")])
+                            if nm == "is_empty":
+                                return empty
+                            if nm in ("len",) and argv and minterp.contains_opaque(argv[0]):
+                                return 0 if empty else 3
+                            if nm in ("as_ref", "as_str", "deref", "borrow", "as_bytes", "trim", "into") and argv:
+                                return argv[0]
+                            return minterp.NO_VALUE
+                        I = minterp.Interp(F, c, inline=lambda d_, rid: rid.startswith("conjure_http::server::") and c.body(rid) is not None and c.body(rid).d.get("vis") != "pub", max_depth=3)
+                        I.call_oracle = oracle
+                        try:
+                            r = I.run(b, [("sym", f"a{k}") for k in range(b.argc)])
+                        except minterp.Unsupported as e:
+                            unsup = str(e)
+                            continue
+                        if not (minterp.is_adt(r) and r[1] == RES):
+                            unsup = f"result {minterp.show(I, r)[:60]}"
+                            continue
+                        if (conv == "err" and not used["conv"]) or (pr == "err" and not used["parse"] and conv == "ok" and sc == "item" and False):
+                            continue      # the decoder has no text-conversion step: this row repeats the conv=ok one
+                        rows += 1
+                        if sc == "err" or conv == "err" or pr == "err":
+                            exp = "Err"
+                        elif sc == "none":
+                            exp = "Ok(None)"
+                        else:
+                            exp = "Ok(Some(value))" if optional else "Ok(value)"
+                        if r[2] == 1:
+                            got = "Err"
+                        else:
+                            v = r[3][0]
+                            if minterp.is_adt(v) and v[1] == OPTP:
+                                got = "Ok(None)" if v[2] == 0 else ("Ok(Some(value))" if v[3] and v[3][0] == ("sym", "value") else f"Ok(Some({minterp.show(I, v[3][0])[:30]}))")
+                            else:
+                                got = "Ok(value)" if v == ("sym", "value") else f"Ok({minterp.show(I, v)[:30]})"
+                        if got != exp:
+                            bad.append(f"selection={sc}, text conversion={conv}, parser={pr}, text {'empty' if empty else 'non-empty'}: returns {got}, must return {exp}")
+        if rows == 0:
+            ctx.note(f"R19.7 {who}: decode left the interpretable fragment ({unsup}); cardinality and error classes are decided by R19.2")
+            continue
+        n += 1
+        ctx.check(not bad, "R19.7", b.loc(), f"{b.id}|decoder-table", f"{who}: " + "; ".join(bad[:3]) + " — a present value that parses must be delivered (an empty text is still a value: `?limit=` must be rejected for an integer, not read as absent), and every failure must be an error",
+                  instance=f"{who}: {rows} rows (selection x conversion x parser x emptiness) as specified")
+    ctx.floor("R19.7", "single-valued / optional parameter decoders decided as tables", n, 3)
+
+
 def run(ctx):
     ctx.explanation = EXPLANATION
     ctx.assumptions = ["InvalidArgument / PermissionDenied map to INVALID_ARGUMENT / PERMISSION_DENIED (decided by C17 R17.6 on the standard error types)"]
@@ -261,6 +347,10 @@ def run(ctx):
     n2 = c06.check_error_classes(ctx, c, auth, "R19.2", expected=PERM_DENIED, label="auth-parsing")
     ctx.floor("R19.2", "auth failure sites", n2, 1)
     check_cardinality(ctx, c)
+    check_decoder_tables(ctx, c)
+    # R19.8 a well-formed request must not be turned into a decoding failure by the extraction step itself (shared with C07)
+    from . import c07
+    ctx.include(c07, {"R7.5"}, "R19.8", "a path argument that the client encoded correctly (an escaped '/' inside one segment) must decode, not be reported as repeated / malformed")
     # helpers themselves construct no other errors
     for name, (ob, rb) in hb.items():
         ctors = [t["call"]["def"] for x in [rb] + c.closures_of(rb) for _, t in x.calls() if t["call"]["def"].startswith("conjure_error::error::Error::") and t["call"]["name"] not in ("with_safe_param",)]
